@@ -10,7 +10,7 @@
     entry 4: [table; start; fuel; merges; out]              merge history, merge = [k; program]
     entry 5: [table; start; fuel]                           the model's language *)
 From Coq Require Import ZArith NArith QArith List Bool.
-From PS Require Import Base.ListX Base.Sexp Base.Ty Base.Value Base.Prog Gram.Det Enum.Checker.
+From PS Require Import Base.ListX Base.Sexp Base.Ty Base.Value Base.Prog Gram.Det Gram.U Enum.Checker Run.C04.
 Import ListNotations.
 Local Open Scope Z_scope.
 
@@ -168,6 +168,75 @@ Definition run_language (s : sexp) : sexp :=
   | _ => bad_case
   end.
 
+(** ---- unambiguous grammars (u-heap-search, u-bucket-search) ----
+    entry 11: [utable; starts; fuel; out]                       exactly-once
+    entry 12: [utable; starts; uweights; start weights; eps; out] probability order (start weight included)
+    entry 13: [utable; starts; fuel; rejected; out]              filtered
+    entry 14: [utable; starts; fuel; merges; out]                merges *)
+Definition umember (fuel : nat) (tbl : utable) (starts : list unt) (p : prog) : bool :=
+  ucontains tbl starts p && normal p && Nat.leb (pdepth p) fuel.
+
+Definition run_u_once (s : sexp) : sexp :=
+  match s with
+  | L [tb; st; fu; out] =>
+    match utable_of_sexp tb, asListOf unt_of_sexp st, asNat fu, asListOf prog_of_sexp out with
+    | Some tbl, Some sts, Some fuel, Some o =>
+      let Lg := ulanguage fuel tbl sts in
+      let Lg' := ulanguage (S fuel) tbl sts in
+      L [ ofBool (nodupb prog_eqb Lg && check_enum (umember fuel tbl sts) (length Lg) o);
+          ofBool (nodupb prog_eqb o); ofBool (forallb (umember fuel tbl sts) o);
+          ofNat (length o); ofNat (length Lg); ofNat (length Lg');
+          A (first_false (umember fuel tbl sts) o 0); A (first_dup o 0);
+          ofList sexp_of_prog (firstn 5 (filter (fun p => negb (memb prog_eqb p o)) Lg)) ]
+    | _, _, _, _ => bad_case
+    end
+  | _ => bad_case
+  end.
+
+Definition run_u_order (s : sexp) : sexp :=
+  match s with
+  | L [tb; st; ws; sws; eps; out] =>
+    match utable_of_sexp tb, asListOf unt_of_sexp st, uwtable_of_sexp ws, swtable_of_sexp sws, q_of_sexp eps, asListOf prog_of_sexp out with
+    | Some tbl, Some sts, Some w, Some sw, Some e, Some o =>
+      let keys := map (uprobability tbl w sw sts) o in
+      L [ofBool (chain (q_ge_tol e) keys && forallb (fun q => negb (Qeq_bool q 0)) keys); A (first_break (q_ge_tol e) keys 0)]
+    | _, _, _, _, _, _ => bad_case
+    end
+  | _ => bad_case
+  end.
+
+Definition run_u_filtered (s : sexp) : sexp :=
+  match s with
+  | L [tb; st; fu; rej; out] =>
+    match utable_of_sexp tb, asListOf unt_of_sexp st, asNat fu, asListOf prog_of_sexp rej, asListOf prog_of_sexp out with
+    | Some tbl, Some sts, Some fuel, Some rj, Some o =>
+      let Lg := ulanguage fuel tbl sts in
+      L [ ofBool (check_filtered (umember fuel tbl sts) Lg rj o);
+          ofBool (nodupb prog_eqb o);
+          A (first_false (fun p => umember fuel tbl sts p && accepted rj p) o 0);
+          ofList sexp_of_prog (firstn 5 (filter (fun p => hereditarily rj p && negb (memb prog_eqb p o)) Lg));
+          ofNat (length Lg); ofNat (length (filter (hereditarily rj) Lg)); ofNat (length (filter (accepted rj) Lg)) ]
+    | _, _, _, _, _ => bad_case
+    end
+  | _ => bad_case
+  end.
+
+Definition run_u_merged (s : sexp) : sexp :=
+  match s with
+  | L [tb; st; fu; ms; out] =>
+    match utable_of_sexp tb, asListOf unt_of_sexp st, asNat fu, asListOf merge_of_sexp ms, asListOf prog_of_sexp out with
+    | Some tbl, Some sts, Some fuel, Some m, Some o =>
+      let Lg := ulanguage fuel tbl sts in
+      L [ ofBool (check_merged (umember fuel tbl sts) Lg m o);
+          ofBool (nodupb prog_eqb o); ofBool (forallb (umember fuel tbl sts) o);
+          ofBool (check_merged_prefix m 0 o);
+          ofList sexp_of_prog (firstn 5 (filter (fun p => negb (memb prog_eqb p o) && negb (existsb (fun mm : nat * prog => contains_sub p (snd mm)) m)) Lg));
+          ofNat (length Lg) ]
+    | _, _, _, _, _ => bad_case
+    end
+  | _ => bad_case
+  end.
+
 Definition run_case (entry : Z) (s : sexp) : sexp :=
   match entry with
   | 1 => run_once s
@@ -175,5 +244,9 @@ Definition run_case (entry : Z) (s : sexp) : sexp :=
   | 3 => run_filtered s
   | 4 => run_merged s
   | 5 => run_language s
+  | 11 => run_u_once s
+  | 12 => run_u_order s
+  | 13 => run_u_filtered s
+  | 14 => run_u_merged s
   | _ => bad_case
   end.
